@@ -12,8 +12,8 @@ def run_routing(env, rng, out, classes):
   from scales.constants import MessageProperties, SinkProperties
   from scales.dispatch import _AsyncResponseSink
   from scales.kafka.sink import KafkaEndpoint, KafkaSerializerSink, KafkaTransportSink
-  from scales.message import MethodCallMessage
-  from scales.sink import ClientMessageSinkStack
+  from scales.message import Deadline, MethodCallMessage, TimeoutError as ScalesTimeout
+  from scales.sink import ClientMessageSinkStack, TimeoutSinkProvider
   from . import simnet, servers
   if _NET[0] is None:
     _NET[0] = simnet.Network(env)
@@ -23,8 +23,12 @@ def run_routing(env, rng, out, classes):
   _PORT[0] += 1
   port = _PORT[0]
 
+  with_timeouts = rng.random() < 0.5
+
   class Policy(servers.DefaultPolicy):
     def __call__(self, server, conn, req):
+      if with_timeouts and rng.random() < 0.4:
+        return {'delay': rng.choice([0.03, 0.05, 0.08]) * (1 + 0.2 * rng.random())}    # later than the short deadlines
       return {'delay': rng.choice([0.0005, 0.001, 0.002, 0.01]) * (1 + rng.random())}
   broker = servers.KafkaBroker(net, 'kb', port, Policy())
   tp = KafkaTransportSink.Builder()
@@ -32,7 +36,9 @@ def run_routing(env, rng, out, classes):
   sp.next_provider = tp
   pid = rng.randint(0, 9)
   ep = KafkaEndpoint('kb', port, pid)
-  sink = sp.CreateSink({SinkProperties.Endpoint: ep, SinkProperties.Label: 'kafka'})
+  tprov = TimeoutSinkProvider()
+  tprov.next_provider = sp
+  sink = tprov.CreateSink({SinkProperties.Endpoint: ep, SinkProperties.Label: 'kafka'})
   classes.add('routing')
   out.obligations += 1
   try:
@@ -42,17 +48,34 @@ def run_routing(env, rng, out, classes):
     return
   n = rng.choice([1, 2, 5, 12, 20])
   calls = []
-  for i in range(n):
+  deadline_of = {}
+
+  def issue(i):
     payload = b'cid-%d-%d' % (i, rng.getrandbits(30))
     msg = MethodCallMessage(None, 'Put', (b'topic', [payload], 1), {})
     msg.properties[MessageProperties.Endpoint] = ep
+    if with_timeouts:
+      T = rng.choice([0.005, 0.012, 1.0, 1.0])
+      msg.properties[Deadline.KEY] = env.now + T
+      deadline_of[payload] = env.now + T
     ar = AsyncResult()
     stack = ClientMessageSinkStack()
     stack.Push(_AsyncResponseSink(), (None, 0, ar, msg.properties))
     gevent.spawn(sink.AsyncProcessRequest, stack, msg, None, {})
     calls.append((payload, ar))
+  for i in range(n):
+    issue(i)
     if rng.random() < 0.3:
       gevent.sleep(rng.random() * 0.002)
+  if with_timeouts:
+    # requests that timed out in transit are still owed an answer: calls issued now, before
+    # those late answers arrive, must not be handed them
+    classes.add('routing:timeouts')
+    for k in range(rng.choice([1, 2, 3])):
+      env.advance(rng.choice([0.006, 0.013, 0.02]))
+      for i in range(rng.choice([1, 3, 6])):
+        issue(len(calls))
+    env.advance(1.5)
   env.advance(0.1)
   by_payload = {}
   for r in broker.requests:
@@ -68,6 +91,10 @@ def run_routing(env, rng, out, classes):
       out.violate('routing:no-reply', 'produce call never completed (request %s)' % (
         'reached broker' if r else 'never reached broker'), {})
       continue
+    if isinstance(ar.exception, ScalesTimeout) and payload in deadline_of and \
+        (r is None or r.get('reply_vt') is None or r['reply_vt'] > deadline_of[payload] - 0.011):
+      classes.add('routing:timed-out-in-transit')
+      continue      # legitimately timed out: the broker's answer came (or would come) after the deadline
     if ar.exception is not None:
       out.violate('routing:error', 'produce call failed: %r' % ar.exception, {'exc': type(ar.exception).__name__})
       continue
